@@ -2,12 +2,12 @@ SPECIFICATION TSpec
 CONSTANTS
   MaxVol = 999
   LastSeq = 55
-  GetBudget = 5
-  ListBudget = 10
+  GetBudget = 1000000
+  ListBudget = 1000000
   MaxFaults = 100000
   MaxUploads = 1000000
   Requests = FALSE
-  Slack = FALSE
+  Slack = TRUE
 CONSTRAINT Track
 POSTCONDITION Accept
 INVARIANTS Advancing FirstIsNewestAtStart AtMostOneAfterStop OkOnlyAfterStop
